@@ -28,23 +28,30 @@ structure F where
   den : Nat
 deriving Repr, DecidableEq
 
-/-- round the positive rational `p / q` to the nearest binary64 (53-bit significand, ties to even).
-Exponent range is not modelled (all values here are between 2^-31 and 2^64). -/
-def roundQ (p q : Nat) : F :=
-  if p = 0 ∨ q = 0 then ⟨0, 1⟩ else
-  let lp : Int := p.log2
-  let lq : Int := q.log2
-  let k := lp - lq
-  -- is p/q ≥ 2^k ?
-  let ge : Bool := if k ≥ 0 then p ≥ q * 2 ^ k.toNat else p * 2 ^ (-k).toNat ≥ q
-  let e : Int := if ge then k else k - 1          -- 2^e ≤ p/q < 2^(e+1)
-  let sh : Int := 52 - e                          -- significand = p/q · 2^sh ∈ [2^52, 2^53)
+/-- `2^e ≤ p / q` (for `q > 0`), with the power moved to the side where it is a natural number -/
+def geExp (p q : Nat) (e : Int) : Bool :=
+  if e ≥ 0 then q * 2 ^ e.toNat ≤ p else q ≤ p * 2 ^ (-e).toNat
+
+/-- the binary exponent of `p / q`: `2^e ≤ p/q < 2^(e+1)`.  `log2 p - log2 q` is right or one too big. -/
+def expo (p q : Nat) : Int :=
+  let k : Int := (p.log2 : Int) - (q.log2 : Int)
+  if geExp p q k then k else k - 1
+
+/-- round `p / q` to a 53-bit significand at binary exponent `e` (`2^e ≤ p/q < 2^(e+1)`), ties to even:
+the significand is `p/q · 2^(52-e) ∈ [2^52, 2^53)` rounded to an integer. -/
+def roundAt (p q : Nat) (e : Int) : F :=
+  let sh : Int := 52 - e
   let P := if sh ≥ 0 then p * 2 ^ sh.toNat else p
   let Q := if sh ≥ 0 then q else q * 2 ^ (-sh).toNat
   let m := P / Q
   let r := P % Q
   let m' := if 2 * r > Q ∨ (2 * r = Q ∧ m % 2 = 1) then m + 1 else m
   if sh ≥ 0 then ⟨m', 2 ^ sh.toNat⟩ else ⟨m' * 2 ^ (-sh).toNat, 1⟩
+
+/-- round the positive rational `p / q` to the nearest binary64 (53-bit significand, ties to even).
+Exponent range is not modelled (all values here are between 2^-31 and 2^64). -/
+def roundQ (p q : Nat) : F :=
+  if p = 0 ∨ q = 0 then ⟨0, 1⟩ else roundAt p q (expo p q)
 
 def ofNat (n : Nat) : F := roundQ n 1
 def add (a b : F) : F := roundQ (a.num * b.den + b.num * a.den) (a.den * b.den)
